@@ -415,31 +415,13 @@ func (ex *exec) assumeOrAbort(c *Term, what string) {
 }
 
 // strByteAt returns byte i of symbolic string s as a value of kind ek.
+// The caller guarantees 0 <= i < len(s) on this path.
 func (ex *exec) strByteAt(s *Term, i int64, ek types.BasicKind) value {
 	if s.isConst() {
 		return concreteOf(ek, big.NewInt(int64(s.s[i])))
 	}
-	// str.++ of single chars / constants: pick directly when possible
-	if s.op == "str.++" {
-		off := int64(0)
-		ok := true
-		for _, p := range s.args {
-			if p.isConst() {
-				if i < off+int64(len(p.s)) {
-					return concreteOf(ek, big.NewInt(int64(p.s[i-off])))
-				}
-				off += int64(len(p.s))
-			} else if p.op == "str.from_code" {
-				if i == off {
-					return valueOfTerm(p.args[0], ek)
-				}
-				off++
-			} else {
-				ok = false
-				break
-			}
-		}
-		_ = ok
+	if cs, ok := charSeq(s); ok && i < int64(len(cs)) {
+		return valueOfTerm(cs[i], ek)
 	}
 	return valueOfTerm(mkApp("str.to_code", SInt, mkApp("str.at", SStr, s, mkInt64(i))), ek)
 }
